@@ -11,7 +11,7 @@ m = {
     'hooks': {
         'guard': 'EVENTPP_VERIF',
         'enable': 'none needed: the static checks parse /repo/include as it is (the guard macro is reserved and explicitly undefined, -UEVENTPP_VERIF); no hook commits',
-        'baseline_off_cmd': 'cmake -G Ninja -S /repo/tests -B /repo/_build_tests -DCMAKE_BUILD_TYPE=Release >/dev/null && cmake --build /repo/_build_tests --target unittest >/dev/null && ctest --test-dir /repo/_build_tests -j8 --timeout 900',
+        'baseline_off_cmd': 'bin/repo-tests.sh',
         'source_commits': [],
         'add_only': True,
     },
